@@ -37,6 +37,7 @@ type Engine struct {
 	axiomPkg  map[*Lemma]string
 	lemmas    []*Lemma
 	globalInvs map[string][]*Lemma // package -> global invariants
+	monitors   map[string][]*Monitor // package -> monitors
 	lemmaPkg  map[*Lemma]string
 	rawSMT    []string
 
@@ -60,6 +61,7 @@ func NewEngine(repo string) *Engine {
 		bvTypes:   map[string]bool{},
 		axiomPkg:  map[*Lemma]string{},
 		globalInvs: map[string][]*Lemma{},
+		monitors:   map[string][]*Monitor{},
 		lemmaPkg:  map[*Lemma]string{},
 		typeIDs:   map[string]int{},
 		funcIDs:   map[string]int{},
@@ -320,6 +322,7 @@ func (e *Engine) addContractText(pkg, path, text string, goFile bool) error {
 		e.axiomPkg[a] = cf.Pkg
 	}
 	e.globalInvs[cf.Pkg] = append(e.globalInvs[cf.Pkg], cf.Invs...)
+	e.monitors[cf.Pkg] = append(e.monitors[cf.Pkg], cf.Monitors...)
 	for _, l := range cf.Lemmas {
 		e.lemmas = append(e.lemmas, l)
 		e.lemmaPkg[l] = cf.Pkg
